@@ -19,7 +19,7 @@ from ..model import AnalysisError, Unknown, dotted, src
 TECHNIQUE = "interprocedural acquire/release (typestate) analysis of register activation with ownership transfer and correlated-guard idioms (static analysis)"
 ENGINES = ["model", "flow"]
 EXPLANATION = (
-    "Over sdk/builder.py, sdk/futures.py and sdk/connection.py (closures as units of their own): acquire sites are "
+    "Over sdk/builder.py, sdk/futures.py, sdk/connection.py and sdk/epr_socket.py (closures as units of their own): acquire sites are "
     "get_inactive_register(activate=True), add_active_register, and calls whose bottom-up summary returns an owned register "
     "(possibly conditional on an argument, e.g. `isinstance(arg, Future)`). On every normal path each acquired register must be "
     "released (remove_active_register, a releasing loop over the list it was put in, a callee that releases its parameter, the "
@@ -35,7 +35,7 @@ LEVEL_TEXT = (
 )
 LEVEL_NOTE = "exceptional paths abort compilation and are not modelled; name-based call resolution where the method name is unique in the analysed modules; user-visible handles (new_register) are transfers to the user"
 ASSUMPTIONS = [LEVEL_NOTE]
-MODS = ["netqasm.sdk.builder", "netqasm.sdk.futures", "netqasm.sdk.connection"]
+MODS = ["netqasm.sdk.builder", "netqasm.sdk.futures", "netqasm.sdk.connection", "netqasm.sdk.epr_socket"]
 
 
 def collect_units(repo):
@@ -133,7 +133,7 @@ def run(ctx):
                    f"every completed operation of this kind permanently consumes one of the 16 registers") if l else "",
                   repo.loc(m, node), facts={"path": dict(l.facts)} if l else None,
                   sample={"unit": q, "acquire": site, "released_or_transferred_on_all_paths": l is None})
-    ctx.anchor("C14.A1", "register acquire sites", n_sites, 25)
+    ctx.anchor("C14.A1", "register acquire sites", n_sites, 26)
     # table transfers: the paired exit function must pop the table and release what it popped
     pairs = context_pairs(repo)
     summ = {q.split(".")[-1]: s for q, s in an.summaries.items() if "." in q}
